@@ -22,6 +22,7 @@ type evalCtx struct {
 	pkg      *types.Package
 	inOld    bool
 	depth    int
+	at       ssa.Instruction // evaluation point inside block (definitions earlier in the block are visible)
 }
 
 func (c *evalCtx) with(extra map[string]Val) *evalCtx {
@@ -359,7 +360,10 @@ func (x *FnExec) localByName(fr *frame, name string, c *evalCtx) (Val, bool) {
 			switch d := b.Instrs[i].(type) {
 			case *ssa.DebugRef:
 				if b == c.block {
-					continue // only defs strictly before the block (block entry evaluation)
+					// block-entry evaluation sees nothing of the block; a call-site evaluation sees what precedes the call
+					if c.at == nil || c.at.Block() != b || !precedes(b, d, c.at) {
+						continue
+					}
 				}
 				if obj := d.Object(); obj != nil && obj.Name() == name {
 					if _, isVar := obj.(*types.Var); isVar {
@@ -1085,3 +1089,15 @@ func (x *FnExec) evalCall(fr *frame, e *ECall, c *evalCtx) (Val, error) {
 // specLibFuncs: uninterpreted/defined spec-level counterparts of library functions, shared between
 // library models (lib.go) and contracts.
 var specLibFuncs = map[string]func(x *FnExec, c *evalCtx, args []Val) (Val, error){}
+
+func precedes(b *ssa.BasicBlock, x, y ssa.Instruction) bool {
+	for _, in := range b.Instrs {
+		if in == x {
+			return true
+		}
+		if in == y {
+			return false
+		}
+	}
+	return false
+}
